@@ -76,6 +76,12 @@ Theorem C01_conv_weights : forall c s,
 Proof. exact conv_weights. Qed.
 Print Assumptions C01_conv_weights.
 
+(* the conversions of the model (re-translated from the source) ARE the documented ones (the spec side of the wire) *)
+Theorem C01_conv_is_documented : forall c s k t,
+  conv_of c s k = spec_conv_of c s k /\ (conv_t c t == spec_conv_t c t)%Q.
+Proof. intros c s k t. exact (conj (conv_is_spec c s k) (conv_t_is_spec c t)). Qed.
+Print Assumptions C01_conv_is_documented.
+
 (* ------------------------------------------------------------------ C01_elements (full strength) *)
 
 (* For every data set c, every stored content S, every history h1, every kind of three-axis indexer acquired after
@@ -180,6 +186,14 @@ Theorem C01_labels : forall c h d, cfg_ok c -> run c (start c) h = Some d ->
         nth (Z.to_nat l) (corr_products c s) d0 = nth (Z.to_nat (znth (cp_idx s) l)) (Select.o_cps (c_obs c)) d0).
 Proof. exact labels_history. Qed.
 Print Assumptions C01_labels.
+
+(* the timestamps served are, dump by dump, the DOCUMENTED conversion of the stored timestamps of the dumps in
+   [dumps] (the spec side of the wire), after every history *)
+Theorem C01_timestamps_documented : forall c h d, cfg_ok c -> run c (start c) h = Some d ->
+  zlen (c_ts c) = stored_rows c ->
+  Forall2 Qeq (timestamps c (ds_sel d)) (spec_timestamps c (ds_sel d)).
+Proof. intros c h d Hc H. exact (timestamps_is_spec c (ds_sel d) Hc (run_wf c h d H)). Qed.
+Print Assumptions C01_timestamps_documented.
 
 (* ------------------------------------------------------------------ non-vacuity, one example per format quirk *)
 
